@@ -1162,6 +1162,186 @@ def cipher_cases(ctx, batch):
     batch.add([], cases, 3000)
 
 
+# --------------------------------------------------------------------------- application channels
+# The AirPlay 2 data-stream and event channels frame THEIR messages inside the HAP byte stream.
+# The peer encrypts a BURST of messages as one byte stream, so the 1024-byte HAP frame boundaries
+# are independent of the message boundaries; sizes are chosen so that a frame boundary falls at
+# every offset inside the following message's header and into its payload.  Oracle only (this
+# layer is above the modelled HAP session): exactly the messages sent are delivered, whatever the
+# reads, nothing raises, every request is answered.
+
+def ds_message(seqno, letter, total=None):
+    """One data-stream 'sync' message carrying one protobuf; padded so that it is `total` bytes."""
+    import plistlib
+    from pyatv.protocols.mrp import protobuf
+
+    def build(n):
+        pm = protobuf.ProtocolMessage()
+        pm.type = protobuf.ProtocolMessage.GENERIC_MESSAGE if hasattr(protobuf.ProtocolMessage, "GENERIC_MESSAGE") else 15
+        pm.identifier = chr(letter) * n
+        ser = pm.SerializeToString()
+        pl = plistlib.dumps({"params": {"data": varint(len(ser)) + ser}}, fmt=plistlib.FMT_BINARY)
+        hdr = struct.pack(">I12s4sQI", 32 + len(pl), b"sync" + 8 * b"\x00", b"comm", seqno, 0)
+        return hdr + pl, ser
+
+    if total is None:
+        return build(40)
+    n = max(40, total - 140)
+    for _ in range(400):
+        msg, ser = build(n)
+        if len(msg) == total:
+            return msg, ser
+        n += total - len(msg) if abs(total - len(msg)) > 3 else (1 if len(msg) < total else -1)
+        if n < 40:
+            break
+    return None, None
+
+
+class DsListener:
+    def __init__(self):
+        self.got = []
+
+    def handle_protobuf(self, message):
+        self.got.append(message.SerializeToString())
+
+    def handle_connection_lost(self, exc):
+        pass
+
+
+def app_reads(ctx, stream, parts_len, mode):
+    """Read patterns for a HAP stream whose frames have the given lengths."""
+    total = len(stream)
+    out = [[], list(parts_len[:-1])]
+    bounds, acc = [], 0
+    for n in parts_len[:-1]:
+        acc += n
+        bounds.append(acc)
+    near = set()
+    for b in bounds:
+        for d in (-1, 1, 2, 17, 18, 19, 33, 34, 35):
+            if 0 < b + d < total:
+                near.add(b + d)
+    for c in sorted(near):
+        out.append([c])
+    if mode == "full":
+        out += [[c] for c in range(1, total) if c not in near]
+        out.append([1] * total)
+    else:
+        out += [[ctx.rng.randrange(1, total)] for _ in range(3)]
+        # every frame in its own read, the frames themselves cut once more
+        out.append(sorted({ctx.rng.randrange(1, total) for _ in range(6)} | set(bounds)))
+        out[-1] = [b - a for a, b in zip([0] + out[-1][:-1], out[-1])]
+    return out
+
+
+def app_channel_cases(ctx):
+    from pyatv.protocols.airplay.channels import DataStreamChannel, EventChannel
+    rng = ctx.rng
+    ka, kb = keys(4242)
+    # ---- data stream: first message of every size 1024-48 .. 1024+2 (frame boundary at every offset
+    # of the second message's header and into its payload), then two more messages
+    sizes = list(range(1024 - 48, 1024 + 3))
+    if not ctx.thorough:
+        sizes = [sz for sz in sizes if sz >= 1024 - 34 or sz % 4 == 0]
+    for i, first in enumerate(sizes):
+        m1, s1 = ds_message(100 + i, 65 + i % 26, first)
+        if m1 is None:
+            continue
+        rest = [ds_message(200 + i, 97 + i % 26), ds_message(300 + i, 66, rng.choice([None, 1100, 2070]))]
+        msgs = [(m1, s1)] + [r for r in rest if r[0] is not None]
+        burst = b"".join(m for m, _ in msgs)
+        want = [sr for _, sr in msgs]
+        c0 = rng.choice([0, 255])
+        peer = Peer("hapchan", 4242, send_counter=c0)
+        frames = [burst[o:o + HAP_MAX] for o in range(0, len(burst), HAP_MAX)]
+        parts = [peer.hap_seal(f, [HAP_MAX]) for f in frames]
+        stream = b"".join(parts)
+        full = ctx.thorough and i % 8 == 0
+        for lens in app_reads(ctx, stream, [len(p) for p in parts], "full" if full else "near"):
+            ch = DataStreamChannel(ka, kb)
+            ch.transport = tr = FakeTransport()
+            lst = DsListener()
+            ch.listener = lst
+            if c0:
+                ch.session.chacha20._in_counter = c0
+            chunks, pos = [], 0
+            for n in lens:
+                chunks.append(stream[pos:pos + n])
+                pos += n
+            if pos < len(stream):
+                chunks.append(stream[pos:])
+            exc = None
+            for chk in chunks:
+                try:
+                    ch.data_received(chk)
+                except Exception as ex:  # noqa
+                    exc = type(ex).__name__
+                    break
+            rep = {"kind": "appchan", "chan": "datastream", "first_size": first, "sizes": [len(m) for m, _ in msgs], "c0": c0, "reads": lens[:12]}
+            if exc is not None:
+                ctx.violation("C07:datastream:receive-raises",
+                              "burst of data-stream messages of %s bytes in 1024-byte HAP frames, reads %s: data_received raised %s, the "
+                              "remaining messages are lost" % ([len(m) for m, _ in msgs], lens[:8] or "whole", exc), rep)
+            elif lst.got != want:
+                ctx.violation("C07:datastream:receive-mismatch",
+                              "burst of data-stream messages of %s bytes, reads %s: %d of %d messages delivered / content differs"
+                              % ([len(m) for m, _ in msgs], lens[:8] or "whole", len(lst.got), len(want)), rep)
+            else:
+                # every sync message is answered with a reply the peer can decrypt
+                try:
+                    answers = Peer("hapchan", 4242).hap_open(b"".join(tr.out))
+                    ok = len(answers) == 32 * len(msgs) and all(
+                        answers[32 * j + 4:32 * j + 8] == b"rply" and answers[32 * j + 20:32 * j + 28] == msgs[j][0][20:28] for j in range(len(msgs)))
+                except Exception:  # noqa
+                    ok = False
+                if not ok:
+                    ctx.violation("C07:datastream:reply-mismatch", "replies to a burst of data-stream messages cannot be recovered by the peer", rep)
+            ctx.case(("datastream", first, tuple(lens[:40]), len(lens)), nontrivial=True,
+                     sample=rep if lens and len(lens) < 4 and i == 3 else None)
+            ctx.count("appchan:datastream")
+    # ---- event channel: requests with bodies so that a frame boundary falls inside a later request
+    for i, first in enumerate([1024 - 60, 1024 - 30, 1024 - 17, 1024 - 5, 1024 - 1, 1024, 1024 + 1] + ([1024 - k for k in range(2, 90, 3)] if ctx.thorough else [])):
+        reqs = []
+        for j, sz in enumerate([first, 120, 1300]):
+            head = b"POST /command RTSP/1.0\r\nCSeq: %d\r\nServer: AirTunes/550.10\r\nContent-Length: " % (10 * i + j)
+            body_len = max(0, sz - len(head) - 8)
+            reqs.append(head + b"%d\r\n\r\n" % body_len + bytes((j + k) % 200 + 20 for k in range(body_len)))
+        burst = b"".join(reqs)
+        peer = Peer("hapchan", 4242)
+        parts = [peer.hap_seal(burst[o:o + HAP_MAX], [HAP_MAX]) for o in range(0, len(burst), HAP_MAX)]
+        stream = b"".join(parts)
+        for lens in app_reads(ctx, stream, [len(p) for p in parts], "near"):
+            ch = EventChannel(ka, kb)
+            ch.transport = tr = FakeTransport()
+            chunks, pos = [], 0
+            for n in lens:
+                chunks.append(stream[pos:pos + n])
+                pos += n
+            if pos < len(stream):
+                chunks.append(stream[pos:])
+            exc = None
+            for chk in chunks:
+                try:
+                    ch.data_received(chk)
+                except Exception as ex:  # noqa
+                    exc = type(ex).__name__
+                    break
+            rep = {"kind": "appchan", "chan": "event", "sizes": [len(r) for r in reqs], "reads": lens[:12]}
+            try:
+                answers = Peer("hapchan", 4242).hap_open(b"".join(tr.out))
+            except Exception:  # noqa
+                answers = None
+            cseqs = re.findall(rb"CSeq: (\d+)", answers or b"")
+            if exc is not None:
+                ctx.violation("C07:event:receive-raises", "burst of event requests of %s bytes, reads %s: data_received raised %s" % (
+                    [len(r) for r in reqs], lens[:8] or "whole", exc), rep)
+            elif answers is None or [int(c) for c in cseqs] != [10 * i + j for j in range(3)] or answers.count(b" 200 OK") != 3:
+                ctx.violation("C07:event:receive-mismatch", "burst of event requests of %s bytes, reads %s: answered CSeqs %s instead of all three in order" % (
+                    [len(r) for r in reqs], lens[:8] or "whole", [int(c) for c in cseqs]), rep)
+            ctx.case(("event", first, tuple(lens[:40]), len(lens)), nontrivial=True)
+            ctx.count("appchan:event")
+
+
 # --------------------------------------------------------------------------- whole sessions
 # "Never reused under a key" is per KEY, not per cipher object: an AirPlay 2 session derives
 # several keys from one shared secret (HKDF, different salt/info strings).  The real derivation
@@ -1549,6 +1729,7 @@ def run(ctx):
         do_recv(ctx, batch, sc, idx)
         idx += 1
     long_oracle(ctx)
+    app_channel_cases(ctx)
     for which in ("raop", "ap2"):
         judge_session(ctx, run_session(which))
     mism = batch.run()
@@ -1569,6 +1750,7 @@ def run(ctx):
         "the two directions of a channel use different keys (HKDF infos differ); AirPlay 2 audio uses one key for one direction only",
         "MRP: the model stops at the byte string handed to protobuf.ParseFromString; protobuf parsing is outside",
         "explicit-nonce encryption (pairing messages, fixed nonces under one-time session keys) is modelled and compared but is outside the freshness theorem",
+        "data-stream / event channel message framing above the HAP session (channels.py) is judged by the oracle only (bursts re-framed at 1024 bytes); it is not part of the Coq model (C02 owns that layer)",
         "Companion payloads of 2^24-16 bytes or more (OverflowError in send) are modelled but not exercised (16 MiB inputs)",
     ]
 
@@ -1592,6 +1774,11 @@ def replay(ctx, path):
                 var["lens"][:8], var.get("tamper"), [x if not isinstance(x, bytes) else x.hex()[:40] for x in (obs["got"] if sc["chan"] not in ("comp",) else [[a, b.hex()[:40]] for a, b in obs["got"]])][:8],
                 obs["exc"], obs["counter"], obs["residual"]))
             viol += v
+    elif sc.get("kind") == "appchan":
+        app_channel_cases(ctx)
+        viol = [(v["key"], v["what"]) for v in ctx.violations if v["replay"].get("chan") == sc.get("chan")]
+        print("re-ran the %s channel bursts: %d failing read patterns" % (sc.get("chan"), len(viol)))
+        viol = viol[:3]
     elif sc.get("kind") == "session":
         r = run_session(sc["which"])
         print("derivations:", r["derivations"])
